@@ -26,6 +26,10 @@ RULE = (
     'after ONE switch: registers outside the documented rewrite set of that '
     'transition (and kelvin always) must be unchanged, a same-mode switch '
     'changes nothing, and rewritten registers must hold the converted value. '
+    'The command after the chain is aimed at a light, a group, a location '
+    'or all; in two cases of five the text also holds switches that are '
+    'never executed (in an untaken branch, in a routine nobody calls) or the '
+    'chain runs twice in a loop. '
     'Non-trivial = a non-grey, non-black colour with non-zero time or '
     'duration and at least one real transition. Distinct by script.')
 ASSUMPTIONS = [
@@ -46,7 +50,8 @@ REWRITTEN = {
     ('rgb', 'logical'): {'hue', 'saturation', 'brightness'},
     ('logical', 'rgb'): {'red', 'green', 'blue'},
 }
-POP = [{'label': 'A', 'group': 'G', 'location': 'L', 'kind': 'plain'}]
+POP = [{'label': 'A', 'group': 'G', 'location': 'L', 'kind': 'plain'},
+       {'label': 'B', 'group': 'G', 'location': 'L', 'kind': 'plain'}]
 
 
 def num(value):
@@ -101,9 +106,15 @@ def cases(draw):
     # the time register may hold a time-of-day pattern instead of a number
     pattern = draw(st.sampled_from([None, None, None, None, '12:00', '*:30',
                                     '1*:*5']))
+    # what the command after the chain is aimed at, and switches that are
+    # written in the text but never executed (an untaken branch, a routine
+    # that is not called) or executed twice (a loop round the chain)
+    target = draw(st.sampled_from(['"A"', '"A"', 'group "G"', 'location "L"',
+                                   'all']))
+    decoy = draw(st.sampled_from([None, None, 'if', 'routine', 'loop']))
     return {'mode': mode, 'regs': {k: num(v) for k, v in regs.items()},
             'stale': {k: num(v) for k, v in stale.items()}, 'chain': chain,
-            'pattern': pattern}
+            'pattern': pattern, 'target': target, 'decoy': decoy}
 
 
 def settings_text(case):
@@ -130,10 +141,25 @@ def rgb_of(raw):
 
 def check_invariance(acc, case):
     base = settings_text(case)
-    tail = ['set "A"', 'wait', 'on "A"']
+    target = case.get('target', '"A"')
+    tail = ['set ' + target, 'wait', 'on ' + target]
     text_a = '\n'.join(base + tail)
-    text_b = '\n'.join(base + ['units ' + m for m in case['chain']] + tail)
-    modes = [case['mode']] + case['chain']
+    chain = list(case['chain'])
+    decoy = case.get('decoy')
+    switches = []
+    for mode in chain:
+        if decoy == 'if':
+            # the same switch in a branch that is not taken
+            switches.append('if {0} begin units ' + mode + ' end')
+        elif decoy == 'routine':
+            switches.append('define q_never_{} begin units {} end'.format(
+                len(switches), mode))
+        switches.append('units ' + mode)
+    if decoy == 'loop':
+        switches = ['repeat 2 begin'] + switches + ['end']
+        chain = chain * 2
+    text_b = '\n'.join(base + switches + tail)
+    modes = [case['mode']] + chain
     transitions = [(a, b) for a, b in zip(modes, modes[1:]) if a != b]
     payload = {'kind': 'invariance', 'case': case}
     _, res_a = run(text_a)
@@ -154,6 +180,9 @@ def check_invariance(acc, case):
         labels.append('time-register-holds-a-pattern')
     if not transitions:
         labels.append('identity-chain')
+    labels.append('target:' + target.split(' ')[0].strip('"'))
+    if decoy:
+        labels.append('decoy:' + decoy)
     acc.case(key=text_b, nontrivial=nontrivial, labels=labels,
              sample={'with_switch': text_b, 'sent': [list(e[1:]) for e in
                                                      events_b][:3]}
@@ -224,7 +253,11 @@ def check_rewrite_table(acc, case):
     target = case['chain'][0]
     source = case['mode']
     fmt = 'printf "' + ' '.join('{' + r + '!r}' for r in ALL) + '"'
-    text = '\n'.join(settings_text(case) + [fmt, 'units ' + target, fmt])
+    decoy = {'if': ['if {0} begin units ' + target + ' end'],
+             'routine': ['define q_never begin units ' + target + ' end'],
+             }.get(case.get('decoy'), [])
+    text = '\n'.join(settings_text(case) + [fmt] + decoy + [
+        'units ' + target, fmt])
     payload = {'kind': 'rewrite', 'case': case}
     _, result = run(text)
     outs = [e[1] for e in result.trace if e[0] == 'out']
